@@ -4,6 +4,7 @@ import VlsModel.Gen.LockTable
 import VlsModel.Model.Locks2pl
 import VlsModel.Lemmas.Locks2pl
 import VlsModel.Lemmas.LocksAtomic
+import VlsModel.Lemmas.LocksErase
 /-
 Property C20 — concurrent requests neither deadlock nor break per-channel atomicity.
 
@@ -903,6 +904,139 @@ theorem C20_programs_invariant_lifts {D : Type} (mem0 : Lock → D) (reqs : List
     rw [Bool.and_eq_true] at hf
     exact ⟨by rw [← strict2pl_shape]; exact hf.1, by rw [← hasRel_shape]; exact hf.2⟩
   exact Locks_2pl_invariant_lifts mem0 reqs (fun r hr => (h2 r hr).1) (fun r hr => (h2 r hr).2) Inv h0 hstep
+
+/-! ### The write projection is SOUND: reader sections can be erased (theorem, no longer an assumption) -/
+
+/-- **Serializability of FULL requests** (unbounded: any lock/data types, any number of threads, every schedule).
+Every request is given in full — every acquisition and release it performs, reader sections included — with a flag on
+the acquisitions of the sections to be disregarded; `eraseOk`: the thread does not update `l` inside a disregarded
+section on `l`.  If what remains after erasing those sections (`erase`) is a strict two-phase transaction, then for
+EVERY complete interleaved execution of the FULL requests the final data equals the data after running the full
+requests sequentially in some order containing each exactly once.  Proof: every step of the full execution is
+simulated by zero or one step of the erased execution with the same data (`erase_sim_step`: an erased acquisition
+only removes blocking), then `Locks_2pl_serializable`.  So a request such as a commitment update — channel-map
+lookup (released), slot, validator-factory / monitor reads and the node ledger nested inside — which is NOT two-phase
+as a whole, is serializable because its WRITING sections are. -/
+theorem Locks_full_requests_serializable {L D : Type} [DecidableEq L] (mem0 : L → D)
+    (freqs : List (List (FEv L D)))
+    (hok : ∀ r ∈ freqs, eraseOk [] r = true)
+    (hstrict : ∀ r ∈ freqs, strict2pl (erase [] r) = true)
+    (hrel : ∀ r ∈ freqs, hasRel (erase [] r) = true) :
+    ∀ n s, Locks2pl.Steps n (Locks2pl.mkState mem0 (freqs.map unflag)) s → Locks2pl.allDone s →
+      ∃ order : List Nat, order.Nodup ∧ (∀ i, i ∈ order ↔ i < freqs.length) ∧
+        ∀ l, s.mem l = (order.foldl (fun m i => runReq m (unflag (freqs[i]?.getD []))) mem0) l := by
+  intro n s hs hdone
+  obtain ⟨m, s', hs', hrel'⟩ := erase_sim_steps (srel_init mem0 freqs hok) hs
+  have hdone' := srel_allDone hrel' hdone
+  obtain ⟨order, hnd, hmem, hdata⟩ := Locks_2pl_serializable mem0 (freqs.map (erase []))
+    (by intro r hr; obtain ⟨q, hq, rfl⟩ := List.mem_map.mp hr; exact hstrict q hq)
+    (by intro r hr; obtain ⟨q, hq, rfl⟩ := List.mem_map.mp hr; exact hrel q hq) m s' hs' hdone'
+  refine ⟨order, hnd, by simpa using hmem, ?_⟩
+  intro l
+  rw [hrel'.1, hdata l]
+  have : (fun (m : L → D) (i : Nat) => runReq m ((freqs.map (erase []))[i]?.getD []))
+      = (fun m i => runReq m (unflag (freqs[i]?.getD []))) := by
+    funext m i
+    simp only [List.getElem?_map]
+    cases freqs[i]? with
+    | none => rfl
+    | some r => exact runReq_erase r m
+  rw [this]
+
+/-- the full flagged request of a generated program: every event of its canonical path; one `upd` after the acquisition
+of each writing section; the flag "disregard" on exactly the sections that `wproj` erases (a section that does not
+write and is not followed by a separate writing section of the same class) -/
+def conc : List (Bool × Bool × Cls) → List (FEv Cls Unit)
+  | [] => []
+  | (true, w, c) :: r =>
+    if w then (false, .acq c) :: (false, .upd c id) :: conc r
+    else (!(r.any (fun e => e.1 && e.2.1 && e.2.2 == c)), .acq c) :: conc r
+  | (false, _, c) :: r => (false, .rel c) :: conc r
+
+/-- the write projection of the generated programs IS the erasure of their full paths (general, by induction) -/
+theorem wproj_eq_erase : ∀ (p : List (Bool × Bool × Cls)) (er : List Cls), wproj er p = erase er (conc p) := by
+  intro p
+  induction p with
+  | nil => intro er; rfl
+  | cons e r ih =>
+    intro er
+    obtain ⟨a, w, c⟩ := e
+    cases a with
+    | true =>
+      cases w with
+      | true => simp [wproj, conc, erase, ih]
+      | false =>
+        cases h : r.any (fun e => e.1 && e.2.1 && e.2.2 == c)
+        · simp only [wproj, conc, erase, h, Bool.false_eq_true, if_false, Bool.not_false, if_true]; exact ih _
+        · simp only [wproj, conc, erase, h, Bool.false_eq_true, if_false, if_true, Bool.not_true]; simp [ih]
+    | false =>
+      by_cases h : er.contains c = true
+      · simp only [wproj, conc, erase, h, if_true]; exact ih _
+      · simp only [wproj, conc, erase, h]; simp [ih]
+
+/-- generated-table obligation: in NO extracted program does a disregarded (reader) section contain a write of its
+own class — the `eraseOk` hypothesis of `Locks_full_requests_serializable` for `conc` of every program -/
+theorem C20_full_programs_erase_ok : ∀ p ∈ progs, eraseOk [] (conc p.2) = true := by
+  decide +kernel
+
+/-- the lock of class `c` in a request on channel `i` (as `instPath`) -/
+def lockOf (i : Nat) (c : Cls) : Lock :=
+  ⟨c, match c with | .slot | .monitor | .monitorDecode => i | _ => 0⟩
+
+theorem lockOf_inj (i : Nat) : ∀ a b, lockOf i a = lockOf i b → a = b :=
+  fun _ _ h => congrArg Lock.cls h
+
+/-- the FULL flagged paths (`conc`) of the generated programs whose write projection is one strict two-phase
+transaction -/
+def fullTwoPhase : List (List (FEv Cls Unit)) :=
+  (progs.filter (fun p => strict2pl (wproj [] p.2) && hasRel (wproj [] p.2))).map (fun p => conc p.2)
+
+theorem eraseOk_of_full {q : List (FEv Cls Unit)} (hq : q ∈ fullTwoPhase) :
+    eraseOk [] q = true ∧ strict2pl (erase [] q) = true ∧ hasRel (erase [] q) = true := by
+  unfold fullTwoPhase at hq
+  obtain ⟨p, hp, rfl⟩ := List.mem_map.mp hq
+  obtain ⟨hpm, hf⟩ := List.mem_filter.mp hp
+  rw [Bool.and_eq_true] at hf
+  refine ⟨C20_full_programs_erase_ok p hpm, ?_, ?_⟩
+  · rw [← wproj_eq_erase]; exact hf.1
+  · rw [← wproj_eq_erase]; exact hf.2
+
+/-- **Serializability of the extracted programs, FULL paths.**  Any number of concurrent requests with any data
+type and any deterministic update functions, each of which follows — on some channel `i`, event by event, reader
+sections included — the full canonical path of one of the generated programs whose write projection is a strict
+two-phase transaction (every ChannelHandler arm except the pre-v5 ValidateCommitmentTx(2), new_channel,
+setup_channel, unchecked_sign_onchain_tx, the invoice / keysend / allowlist kinds …): for EVERY complete interleaved
+execution the final data (every channel, the node ledger, the channel map, the tracker, every monitor) equals the
+data after running the requests sequentially in some order.  Unlike `C20_programs_serializable` nothing is erased
+from the executions considered: the soundness of the write projection is `Locks_full_requests_serializable`. -/
+theorem C20_full_programs_serializable {D : Type} (mem0 : Lock → D) (freqs : List (List (FEv Lock D)))
+    (hshape : ∀ r ∈ freqs, ∃ q ∈ fullTwoPhase, ∃ i : Nat,
+      mapF (fun l : Lock => l) (id : Unit → Unit) r = mapF (lockOf i) (id : Unit → Unit) q) :
+    ∀ n s, Locks2pl.Steps n (Locks2pl.mkState mem0 (freqs.map unflag)) s → Locks2pl.allDone s →
+      ∃ order : List Nat, order.Nodup ∧ (∀ i, i ∈ order ↔ i < freqs.length) ∧
+        ∀ l, s.mem l = (order.foldl (fun m i => runReq m (unflag (freqs[i]?.getD []))) mem0) l := by
+  have hid : ∀ a b : Lock, (fun l : Lock => l) a = (fun l : Lock => l) b → a = b := fun _ _ h => h
+  have key : ∀ r ∈ freqs, eraseOk [] r = true ∧ strict2pl (erase [] r) = true ∧ hasRel (erase [] r) = true := by
+    intro r hr
+    obtain ⟨q, hq, i, he⟩ := hshape r hr
+    obtain ⟨h1, h2, h3⟩ := eraseOk_of_full hq
+    have e1 := eraseOk_mapF (fun l : Lock => l) hid (id : Unit → Unit) r []
+    have e2 := eraseOk_mapF (lockOf i) (lockOf_inj i) (id : Unit → Unit) q []
+    have f1 := erase_mapF (fun l : Lock => l) hid (id : Unit → Unit) r []
+    have f2 := erase_mapF (lockOf i) (lockOf_inj i) (id : Unit → Unit) q []
+    simp only [List.map_nil] at e1 e2 f1 f2
+    rw [he] at e1 f1
+    refine ⟨by rw [← e1, e2]; exact h1, ?_, ?_⟩
+    · rw [← strict2pl_map (fun l : Lock => l) (id : Unit → Unit), ← f1, f2, strict2pl_map]; exact h2
+    · rw [← hasRel_map (fun l : Lock => l) (id : Unit → Unit), ← f1, f2, hasRel_map]; exact h3
+  exact Locks_full_requests_serializable mem0 freqs (fun r hr => (key r hr).1) (fun r hr => (key r hr).2.1)
+    (fun r hr => (key r hr).2.2)
+
+/-- non-vacuity of `C20_full_programs_serializable`: at least 30 full programs qualify, and at least 20 of them are
+NOT two-phase as they stand (they release the channel map before taking the slot, open and close reader sections) -/
+example : fullTwoPhase.length ≥ 30 ∧
+    (fullTwoPhase.filter (fun q => !strict2pl (unflag q))).length ≥ 20 := by
+  decide +kernel
 
 /-- non-vacuity of `C20_programs_serializable`: at least 30 generated programs are strict two-phase write
 transactions, among them the nested pattern "slot, then the node ledger inside it" of the commitment arms
